@@ -248,7 +248,7 @@ def run(chk):
     pid, thorough = chk.pid, chk.tier == 'thorough'
     rng = random.Random(chk.seed * 15485863 + int(pid[1:]))
     extra_groups = design_level(chk, pid, thorough)
-    n = {'C10': (260, 1500), 'C16': (300, 2000), 'C17': (2600, 12000), 'C19': (900, 6000), 'C15': (300, 2000), 'C12': (300, 2500)}[pid][thorough]
+    n = {'C10': (260, 1500), 'C16': (700, 3000), 'C17': (2600, 12000), 'C19': (900, 6000), 'C15': (300, 2000), 'C12': (300, 2500)}[pid][thorough]
     groups = make_groups(chk, pid, rng, n, thorough) + extra_groups
     verdicts = validate(chk, pid, groups, pid)
     nontriv = 0
